@@ -99,7 +99,11 @@ func MergeClearSign(w io.Writer, sig []byte, message io.Reader) error {
 	readPipe, writePipe := io.Pipe()
 	done := make(chan error)
 	go func() {
-		done <- headClearSign(readPipe, out)
+		err := headClearSign(readPipe, out)
+		// if copying stopped early (e.g. the output is full) unblock the
+		// writer below instead of deadlocking with it
+		_ = readPipe.CloseWithError(err)
+		done <- err
 	}()
 
 	err = ClearSign(writePipe, signer, message, config)
